@@ -20,3 +20,8 @@ pub mod groestl_mode;
 pub mod jh_mode;
 pub mod jh_core;
 pub mod skein_mode;
+#[path = "../spec/threefish.rs"]
+pub mod spec_threefish;
+#[path = "../common/mixuf.rs"]
+pub mod mixuf;
+pub mod skein_ubi;
